@@ -170,21 +170,33 @@ pub fn run_history(stack: Stack, plain: &[u8], built: &Built, hist: &[S], final_
                     }
                 }
             } else if let S::Read(k) = *op {
-                let mut a = vec![0u8; k];
-                let mut b = vec![0u8; k];
-                let nb = cur.read(&mut b).unwrap();
-                match sub.read(&mut a) {
-                    Ok(na) => {
-                        if na > nb || a[..na] != b[..na] {
-                            return Some((json!({"kind": "wrong_bytes", "stack": st}), format!("len {len}, step {i} read({k}) at {pos}: returned {na} bytes differing from the plaintext ({nb} available)")));
+                // read(k), repeated until k bytes were delivered or the stream ended: short reads are
+                // legal, and this makes the position reached independent of how the layer splits them
+                let mut done = 0usize;
+                let mut first = true;
+                while first || done < k {
+                    first = false;
+                    let pos = cur.position() as i64;
+                    let mut a = vec![0u8; k - done];
+                    let mut b = vec![0u8; k - done];
+                    let nb = cur.read(&mut b).unwrap();
+                    match sub.read(&mut a) {
+                        Ok(na) => {
+                            if na > nb || a[..na] != b[..na] {
+                                return Some((json!({"kind": "wrong_bytes", "stack": st}), format!("len {len}, step {i} read({k}) at {pos}: returned {na} bytes differing from the plaintext ({nb} available)")));
+                            }
+                            if na == 0 && nb > 0 {
+                                return Some((json!({"kind": "premature_end_of_stream", "stack": st}), format!("len {len}, step {i} read({k}) at {pos}: returned 0 although {nb} byte(s) remain")));
+                            }
+                            cur.set_position(pos as u64 + na as u64);
+                            done += na;
+                            if na == 0 {
+                                break;
+                            }
                         }
-                        if na == 0 && nb > 0 {
-                            return Some((json!({"kind": "premature_end_of_stream", "stack": st}), format!("len {len}, step {i} read({k}) at {pos}: returned 0 although {nb} byte(s) remain")));
+                        Err(e) => {
+                            return Some((json!({"kind": "read_error_inside_stream", "stack": st}), format!("len {len}, step {i} read({k}) at {pos}: {e:?}")));
                         }
-                        cur.set_position(pos as u64 + na as u64);
-                    }
-                    Err(e) => {
-                        return Some((json!({"kind": "read_error_inside_stream", "stack": st}), format!("len {len}, step {i} read({k}) at {pos}: {e:?}")));
                     }
                 }
             }
@@ -297,7 +309,7 @@ fn run_job(j: &Job, rep: &mut Report) {
             alphabet.push(S::End(*t));
             alphabet.push(S::Cur(*t));
         }
-        for k in [0usize, 1, CHUNK + 1, j.len + 5] {
+        for k in [0usize, 1, CHUNK, CHUNK + 1, BLOCK, j.len + 5] {
             alphabet.push(S::Read(k));
         }
         alphabet.push(S::Pos);
